@@ -7,6 +7,7 @@ import (
 	"github.com/wollac/iota-crypto-demo/pkg/bech32"
 
 	"verif/harness/fw"
+	"verif/harness/oracle/bech32m"
 	"verif/harness/prop/bechscan"
 )
 
@@ -82,7 +83,10 @@ var (
 )
 
 // patternWithSyndrome finds an error pattern of weight 1..4 whose syndrome under the real polymod is target.
-func patternWithSyndrome(target uint32, o *fw.Obs) (pat, bool) {
+func patternWithSyndrome(target uint32, o *fw.Obs) (pat, bool) { return patternWithSyndromeWithin(target, 88, o) }
+
+// patternWithSyndromeWithin: all positions at distance < maxDist from the end.
+func patternWithSyndromeWithin(target uint32, maxDist int, o *fw.Obs) (pat, bool) {
 	if tblEntries == nil {
 		r := fw.SubRng(1, "c16-acceptset-table")
 		base := make([]byte, nDist+7)
@@ -126,10 +130,9 @@ func patternWithSyndrome(target uint32, o *fw.Obs) (pat, bool) {
 		for ; i < len(tblEntries) && tblEntries[i]>>24 == want; i++ {
 			p := combine(decodeEntry(e), decodeEntry(tblEntries[i]))
 			if p.n >= 1 && p.n <= 4 {
-				// prefer patterns that fit a short string: all distances below 40
 				fits := true
 				for k := 0; k < p.n; k++ {
-					fits = fits && p.j[k] < 88
+					fits = fits && p.j[k] < maxDist
 				}
 				if fits {
 					return p, true
@@ -140,4 +143,121 @@ func patternWithSyndrome(target uint32, o *fw.Obs) (pat, bool) {
 	return pat{}, false
 }
 
-var _ = fmt.Sprintf
+
+// ---------------------------------------------------------------------------
+// history: the same scan with a rejected call in front of every probe
+
+// poison builds a string that Decode must reject, at a stage chosen by kind.
+func poison(seed uint64, kind byte) string {
+	r := fw.SubRng(int64(seed), "c16-poison", fmt.Sprint(kind))
+	body := func(n int) string {
+		b := make([]byte, n)
+		for i := range b {
+			b[i] = bech32m.Charset[r.Intn(32)]
+		}
+		return string(b)
+	}
+	switch kind % 8 {
+	case 0: // a character outside the charset at the end of the data part
+		return "x1" + body(6+r.Intn(20)) + "b"
+	case 1: // ... in the middle of the data part
+		return "pq1" + body(3+r.Intn(10)) + "i" + body(6+r.Intn(10))
+	case 2: // data part shorter than a checksum
+		return "x1" + body(r.Intn(6))
+	case 3: // mixed case
+		return "ab1" + body(10) + "Q" + body(6)
+	case 4: // well-formed, wrong checksum
+		return "test1" + body(12+r.Intn(30))
+	case 5: // no separator
+		return body(8 + r.Intn(20))
+	case 6: // longer than 90 characters
+		return "long1" + body(90)
+	default: // empty human-readable part
+		return "1" + body(12)
+	}
+}
+
+func judgeHistory(seed uint64, kind byte, shard, nshards uint32, thorough bool, o *fw.Obs) {
+	o.Nontrivial()
+	r := fw.SubRng(int64(seed), "c16-history-base")
+	data := make([]byte, 50)
+	r.Read(data)
+	base, ok := bech32m.Encode("hs", data) // 2 + 1 + 80 + 6 = 89 characters
+	if !ok || len(base) != 89 {
+		panic("c16: model encoder refused the history base")
+	}
+	const dataPart = 86
+	bad := poison(seed, kind)
+	if _, _, reason := bech32m.Decode(bad); reason == "" {
+		o.Count("history: generated poison string happens to be valid (skipped)")
+		return
+	}
+	var perr error
+	var okBase bool
+	probe := func(s string) bool {
+		_, _, perr = bech32.Decode(bad)
+		_, _, err := bech32.Decode(s)
+		return err == nil
+	}
+	if !o.Try("bech32.Decode(rejected string); bech32.Decode(valid string)", func() { okBase = probe(base) }) {
+		return
+	}
+	if perr == nil {
+		o.Count("history: malformed string accepted (left to C04)")
+		return
+	}
+	lo, hi := uint32(0), uint32(0)
+	switch {
+	case !okBase:
+		// Decode depends on the call before it. Whether a string within four substitutions of the valid
+		// one is accepted in that situation is decided by scanning this shard's share of all checksum values.
+		o.Count("history anomaly: valid string rejected right after a rejected call")
+		lo, hi = uint32(uint64(shard)<<30/uint64(nshards)), uint32(uint64(shard+1)<<30/uint64(nshards))
+	case thorough: // 2^23 values
+		o.Count("history: valid string accepted right after a rejected call")
+		c := (uint32(r.Intn(128)) + shard*128/nshards) % 128
+		lo, hi = c<<23, (c+1)<<23
+	default: // 2^17 values
+		o.Count("history: valid string accepted right after a rejected call")
+		c := (uint32(r.Intn(8192)) + shard*8192/nshards) % 8192
+		lo, hi = c<<17, (c+1)<<17
+	}
+	d := lo
+	next := func() uint32 {
+		if d == 0 {
+			d = 1
+		}
+		if d >= hi {
+			return 0
+		}
+		d++
+		return d - 1
+	}
+	var acc []uint32
+	var tried int64
+	if !o.Try("bech32.Decode", func() { acc, tried = bechscan.Scan(base, next, probe) }) {
+		return
+	}
+	o.Add("history scan: checksum values tried through Decode, each right after a rejected call", tried)
+	for _, dl := range acc {
+		e, found := patternWithSyndromeWithin(dl, dataPart, o)
+		if !found {
+			o.Count("history: accepted non-1 checksum value without a weight<=4 pattern inside the data part")
+			continue
+		}
+		b := []byte(base)
+		for k := 0; k < e.n; k++ {
+			i := len(b) - 1 - e.j[k]
+			b[i] = bech32m.Charset[byte(bech32m.SymbolOf(b[i]))^e.v[k]]
+		}
+		var yes bool
+		if !o.Try("bech32.Decode", func() { yes = probe(string(b)) }) {
+			return
+		}
+		if yes && string(b) != base {
+			o.Fail("undetected", "right after the rejected call Decode(%+q), Decode accepts %+q, which differs from the valid string %+q in %d characters of the data part (error pattern %v)", bad, b, base, e.n, e)
+			return
+		}
+		o.Count("history: accepted checksum value whose weight<=4 pattern was not confirmed")
+	}
+}
